@@ -185,8 +185,8 @@ pub fn build(repo: &Path, root: &Path, with_big: bool) -> Tree {
             // F), operation names that collide once snake-cased, selections that flatten to the
             // same response type name
             "syn_multi",
-            "schema { query: Q }\nenum Mood { HAPPY SAD }\ntype Bits { a: Int, b: Int }\ntype Author { name: String, mood: Mood, bits: Bits }\ntype Post { title: String, author: Author }\ntype Hero { name: String, friends: [Hero] }\ntype Q { feed: [Post], me: Author, hero: Hero, heroFriends: [Hero], thing(id: ID): Post }\n",
-            "fragment G on Author { name mood bits { a } }\nfragment F on Post { title author { ...G } }\nquery Dashboard { me { ...G } feed { ...F } }\nquery Feed { feed { ...F } }\nquery getThing { thing(id: \"1\") { title } }\nquery GetThing { thing(id: \"2\") { title author { name } } }\nquery get_thing { thing { title } }\nquery Crew { hero { friends { name } } heroFriends { name } }\nquery Crew2 { hero { name friends { friends { name } } } heroFriends { friends { name } } }\n",
+            "schema { query: Q }\nenum Mood { HAPPY SAD }\ntype Bits { a: Int, b: Int }\ntype Author { name: String, mood: Mood, bits: Bits }\ntype Post { title: String, author: Author }\ntype Hero { name: String, friends: [Hero] }\ntype Q { feed: [Post], me(mood: Mood, moods: [Mood!]): Author, hero: Hero, heroFriends: [Hero], thing(id: ID): Post }\n",
+            "fragment G on Author { name mood bits { a } }\nfragment F on Post { title author { ...G } }\nquery Dashboard { me { ...G } feed { ...F } }\nquery Feed { feed { ...F } }\nquery getThing { thing(id: \"1\") { title } }\nquery GetThing { thing(id: \"2\") { title author { name } } }\nquery get_thing { thing { title } }\nquery Crew { hero { friends { name } } heroFriends { name } }\nquery Crew2 { hero { name friends { friends { name } } } heroFriends { friends { name } } }\nquery Deep { hero { friends { friends { friends { friends { friends { friends { name } } } } } } } }\nquery Moods($m: Mood = HAPPY, $ms: [Mood!]) { me { mood } }\n",
         ),
         (
             "syn_rec",
